@@ -25,10 +25,11 @@ Record ccase : Type := mkCase {
   k_tdefs : list tdef;
   k_tool_list : option (list tdef); (* call option compose.WithToolList: the tools of the tools node for this call *)
   k_fail_args : list string;       (* a tool called with one of these argument strings fails *)
-  k_outs : list (string * list string * bool); (* a tool called with this argument string streams these chunks (>= 1, any
-                                      of them empty) and returns their concatenation when invoked - or, flag set,
-                                      ends its stream with an error item after them and fails when invoked; any
-                                      other argument string: name(args), streamed as name, "(", args, ")" *)
+  k_outs : list (string * list string * N); (* a tool called with this argument string streams these chunks (>= 1, any
+                                      of them empty) and returns their concatenation when invoked (flag 0) - or ends
+                                      its stream with an error item after them and fails when invoked (flag 1), or
+                                      panics as it is called, in either form (flag 2); any other argument string:
+                                      name(args), streamed as name, "(", args, ")" *)
   k_handler : bool;                (* UnknownToolsHandler configured (answers "unk:name:args") *)
   k_rd : list string;              (* ToolReturnDirectly *)
   k_max_step : nat;                (* AgentConfig.MaxStep (0 = default) *)
@@ -46,21 +47,23 @@ Record ccase : Type := mkCase {
 Fixpoint mem_str (s : string) (l : list string) : bool :=
   match l with [] => false | x :: r => String.eqb s x || mem_str s r end.
 
-Fixpoint out_lookup (outs : list (string * list string * bool)) (args : string) : option (list string * bool) :=
+Fixpoint out_lookup (outs : list (string * list string * N)) (args : string) : option (list string * N) :=
   match outs with
   | [] => None
-  | (a, cs, late) :: r => if String.eqb a args then Some (cs, late) else out_lookup r args
+  | (a, cs, flag) :: r => if String.eqb a args then Some (cs, flag) else out_lookup r args
   end.
 
-Definition h_chunks (outs : list (string * list string * bool)) (name args : string) : list string * bool :=
-  match out_lookup outs args with Some p => p | None => ([name; "("; args; ")"], false) end.
+Definition h_chunks (outs : list (string * list string * N)) (name args : string) : list string * N :=
+  match out_lookup outs args with Some p => p | None => ([name; "("; args; ")"], 0%N) end.
 
-Definition h_inv (fails : list string) (outs : list (string * list string * bool)) (name args : string) : tres :=
+Definition h_inv (fails : list string) (outs : list (string * list string * N)) (name args : string) : tres :=
   if mem_str args fails then TErr 100
-  else let '(cs, late) := h_chunks outs name args in if late then TErr 100 else TOk (concat_strings cs).
-Definition h_str (fails : list string) (outs : list (string * list string * bool)) (name args : string) : sres :=
+  else let '(cs, flag) := h_chunks outs name args in
+       match flag with 0%N => TOk (concat_strings cs) | 1%N => TErr 100 | _ => TPanic end.
+Definition h_str (fails : list string) (outs : list (string * list string * N)) (name args : string) : sres :=
   if mem_str args fails then SErr 100
-  else let '(cs, late) := h_chunks outs name args in SOk cs (if late then Some 100%N else None).
+  else let '(cs, flag) := h_chunks outs name args in
+       match flag with 0%N => SOk cs None | 1%N => SOk cs (Some 100%N) | _ => SPanic end.
 
 Fixpoint kind_lookup (tools : list tdef) (name : string) : option tkind :=
   match tools with
